@@ -260,48 +260,49 @@ func c02Record(c *CaseC02, ft *Features) {
 func TestC02(t *testing.T) {
 	Col.Property = "C02"
 	ReplayRegress(t, "C02")
-	for _, tn := range MyTypes() {
+	RunProps(t, rpC02(MyTypes()))
+}
+
+func init() { RapidProps["C02"] = func() []RProp { return rpC02(TypeNames) } }
+
+func rpC02(types []string) (out []RProp) {
+	for _, tn := range types {
 		tn := tn
-		t.Run(tn+"/enc", func(t *testing.T) {
-			CheckProp(t, "C02", "c02", tn+"/enc", func(rt *rapid.T) *CaseC02 {
-				pre, _ := genPrelude(rt, tn, false)
-				v, ft := GenValue(rt, tn, DefaultOpts(Arbitrary))
-				c := &CaseC02{Type: tn, Dir: "enc", V: v, Pre: pre}
-				if len(pre) > 0 {
-					Col.Class("after-prior-calls", 1)
-				}
-				c02Record(c, ft)
-				return c
-			}, oracleC02)
-		})
+		out = append(out, MkProp("C02", "c02", tn+"/enc", func(rt *rapid.T) *CaseC02 {
+			pre, _ := genPrelude(rt, tn, false)
+			v, ft := GenValue(rt, tn, DefaultOpts(Arbitrary))
+			c := &CaseC02{Type: tn, Dir: "enc", V: v, Pre: pre}
+			if len(pre) > 0 {
+				Col.Class("after-prior-calls", 1)
+			}
+			c02Record(c, ft)
+			return c
+		}, oracleC02))
 		if Types[tn].DynIndex() >= 0 {
-			t.Run(tn+"/dec-unknown-key", func(t *testing.T) {
-				ts := Types[tn]
-				tb := TableOf(ts, &ts.Fields[ts.DynIndex()])
-				df := &ts.Fields[ts.FieldIndex(ts.Fields[ts.DynIndex()].Disc)]
-				CheckProp(t, "C02", "c02", tn+"/dec-unknown-key", func(rt *rapid.T) *CaseC02 {
-					g := &gen{rt: rt, feat: &Features{}, mult: 1}
-					key := g.unregisteredKey("key", tb, df)
-					pt := tb.TypeFor(tb.Order[rapid.IntRange(0, len(tb.Order)-1).Draw(rt, "part")])
-					v := holderWithKeyRT(rt, tb, key, true, pt)
-					c := &CaseC02{Type: tn, Dir: "dec-unknown-key", V: v}
-					Col.Case(Hash64([]byte(tn), []byte("unk"), []byte(key)), true, "dir:dec-unknown-key", "module:"+ts.Module)
-					Col.Program(tn)
-					return c
-				}, oracleC02)
-			})
-		}
-		t.Run(tn+"/dec", func(t *testing.T) {
-			CheckProp(t, "C02", "c02", tn+"/dec", func(rt *rapid.T) *CaseC02 {
-				pre, _ := genPrelude(rt, tn, false)
-				v, ft := GenValue(rt, tn, DefaultOpts(Wire))
-				c := &CaseC02{Type: tn, Dir: "dec", V: v, Pre: pre}
-				if len(pre) > 0 {
-					Col.Class("after-prior-calls", 1)
-				}
-				c02Record(c, ft)
+			ts := Types[tn]
+			tb := TableOf(ts, &ts.Fields[ts.DynIndex()])
+			df := &ts.Fields[ts.FieldIndex(ts.Fields[ts.DynIndex()].Disc)]
+			out = append(out, MkProp("C02", "c02", tn+"/dec-unknown-key", func(rt *rapid.T) *CaseC02 {
+				g := &gen{rt: rt, feat: &Features{}, mult: 1}
+				key := g.unregisteredKey("key", tb, df)
+				pt := tb.TypeFor(tb.Order[rapid.IntRange(0, len(tb.Order)-1).Draw(rt, "part")])
+				v := holderWithKeyRT(rt, tb, key, true, pt)
+				c := &CaseC02{Type: tn, Dir: "dec-unknown-key", V: v}
+				Col.Case(Hash64([]byte(tn), []byte("unk"), []byte(key)), true, "dir:dec-unknown-key", "module:"+ts.Module)
+				Col.Program(tn)
 				return c
-			}, oracleC02)
-		})
+			}, oracleC02))
+		}
+		out = append(out, MkProp("C02", "c02", tn+"/dec", func(rt *rapid.T) *CaseC02 {
+			pre, _ := genPrelude(rt, tn, false)
+			v, ft := GenValue(rt, tn, DefaultOpts(Wire))
+			c := &CaseC02{Type: tn, Dir: "dec", V: v, Pre: pre}
+			if len(pre) > 0 {
+				Col.Class("after-prior-calls", 1)
+			}
+			c02Record(c, ft)
+			return c
+		}, oracleC02))
 	}
+	return
 }
